@@ -254,4 +254,20 @@ def readLines : Nat → List Char → List Str × List Char
     let rs := readLines k r.2.2
     (r.1 :: rs.1, rs.2)
 
+/-! ## The substitution's reader (`AsyncPipeReader::read_to_string`)
+
+The pipe is read in chunks whose sizes are up to the kernel and the scheduler; the bytes are
+accumulated and decoded **once**, as a whole (tokio's `read_to_string`). -/
+
+/-- the stream cut into chunks of sizes `n+1` (the rest is the last chunk) -/
+def splitBy : List Nat → List Byte → List (List Byte)
+  | [], s => [s]
+  | n :: ns, s => s.take (n + 1) :: splitBy ns (s.drop (n + 1))
+
+/-- what the reader returns for the chunks it was handed -/
+def readToEnd (decode : List Byte → Str) (chunks : List (List Byte)) : Str := decode chunks.flatten
+
+/-- a reader that decodes every chunk on its own (not what the code does) -/
+def readChunkwise (decode : List Byte → Str) (chunks : List (List Byte)) : Str := (chunks.map decode).flatten
+
 end BrushVerif.Pipe
